@@ -44,6 +44,9 @@ pub enum Ctx {
     Ia5Comp,
     SeqOfComp,
     OctetAssign,
+    BitAssign,
+    Ia5Assign,
+    SeqOfAssign,
 }
 #[derive(Clone, Debug)]
 pub struct Case {
@@ -59,7 +62,7 @@ impl Ctx {
     }
     /// the `signed` argument the generator passes to format_range_annotations for this context
     fn signed_arg(self) -> bool {
-        matches!(self, Ctx::IntAssign | Ctx::IntRef | Ctx::IntNamedRef | Ctx::OctetAssign | Ctx::IntComp | Ctx::IntValueRef | Ctx::IntOneRef)
+        matches!(self, Ctx::IntAssign | Ctx::IntRef | Ctx::IntNamedRef | Ctx::OctetAssign | Ctx::BitAssign | Ctx::Ia5Assign | Ctx::SeqOfAssign | Ctx::IntComp | Ctx::IntValueRef | Ctx::IntOneRef)
     }
     fn name(self) -> &'static str {
         match self {
@@ -76,6 +79,9 @@ impl Ctx {
             Ctx::Ia5Comp => "IA5String SIZE component",
             Ctx::SeqOfComp => "SEQUENCE SIZE OF component",
             Ctx::OctetAssign => "OCTET STRING SIZE assignment",
+            Ctx::BitAssign => "BIT STRING SIZE assignment",
+            Ctx::Ia5Assign => "IA5String SIZE assignment",
+            Ctx::SeqOfAssign => "SEQUENCE SIZE OF assignment",
         }
     }
 }
@@ -214,6 +220,9 @@ impl Case {
                 format!("S{i} ::= SEQUENCE {{ f SEQUENCE {sizes} OF BOOLEAN }}")
             }
             Ctx::OctetAssign => format!("O{i} ::= OCTET STRING {ct}"),
+            Ctx::BitAssign => format!("O{i} ::= BIT STRING {ct}"),
+            Ctx::Ia5Assign => format!("O{i} ::= IA5String {ct}"),
+            Ctx::SeqOfAssign => format!("O{i} ::= SEQUENCE {ct} OF BOOLEAN"),
         }
     }
     fn key(&self) -> String {
@@ -248,7 +257,7 @@ pub fn gen_cases(cfg: &RunCfg) -> Vec<Case> {
     let mut cases: Vec<Case> = Vec::new();
     let ops = [Op::Union, Op::Inter, Op::Except];
     let vctx = [Ctx::IntAssign, Ctx::IntComp, Ctx::IntRef, Ctx::IntValueRef, Ctx::IntNamedRef, Ctx::IntNamedComp, Ctx::IntOneRef, Ctx::IntInlineNamed];
-    let sctx = [Ctx::OctetComp, Ctx::BitComp, Ctx::Ia5Comp, Ctx::SeqOfComp, Ctx::OctetAssign];
+    let sctx = [Ctx::OctetComp, Ctx::BitComp, Ctx::Ia5Comp, Ctx::SeqOfComp, Ctx::OctetAssign, Ctx::BitAssign, Ctx::Ia5Assign, Ctx::SeqOfAssign];
     let mut k = 0usize;
     for size in [false, true] {
         let es = elems(size);
@@ -347,7 +356,7 @@ fn parse_attr(a: &proj::Attrs, ty: &str) -> Obs {
 
 fn observe(m: &proj::ModuleFacts, c: &Case, i: usize) -> Result<Obs, String> {
     match c.ctx {
-        Ctx::IntAssign | Ctx::IntOneRef | Ctx::IntRef | Ctx::IntNamedRef | Ctx::OctetAssign => {
+        Ctx::IntAssign | Ctx::IntOneRef | Ctx::IntRef | Ctx::IntNamedRef | Ctx::OctetAssign | Ctx::BitAssign | Ctx::Ia5Assign | Ctx::SeqOfAssign => {
             let n = match c.ctx { Ctx::IntAssign | Ctx::IntOneRef => format!("A{i}"), Ctx::IntRef | Ctx::IntNamedRef => format!("R{i}"), _ => format!("O{i}") };
             match m.item(&n) {
                 Some(it) => match &it.kind {
@@ -716,6 +725,9 @@ fn case_from_json(v: &serde_json::Value) -> Option<Case> {
         "Ia5Comp" => Ctx::Ia5Comp,
         "SeqOfComp" => Ctx::SeqOfComp,
         "OctetAssign" => Ctx::OctetAssign,
+        "BitAssign" => Ctx::BitAssign,
+        "Ia5Assign" => Ctx::Ia5Assign,
+        "SeqOfAssign" => Ctx::SeqOfAssign,
         _ => return None,
     };
     let mut cons = Vec::new();
